@@ -602,7 +602,7 @@ class CouplingAnalysis:
         if lag_mode == 'max':
             similarity_matrix[range(N), range(N)] = 0.
         elif lag_mode == 'all':
-            lagfuncs[range(N), range(N), 0.] = 0.
+            lagfuncs[range(N), range(N), 0] = 0.
 
         if lag_mode == 'max':
             return similarity_matrix, lag_matrix
